@@ -499,9 +499,15 @@ func raceIndexQueue(writers int) string {
 	defer db.Close()
 	type val struct{ K string }
 	st := badgerstore.NewStore(db).SetType(val{}).SetPrefix("r")
+	// one prebuilt "everything" query, handed to every caller: the library only reads it
+	var sharedQ *badgerstore.IndexQuery
 	qs := badgerstore.NewQueryStore(st, func(qs *badgerstore.QueryStore, q url.Values) (*badgerstore.IndexQuery, error) {
+		if q.Get("shared") != "" {
+			return sharedQ, nil
+		}
 		return &badgerstore.IndexQuery{Index: qs.Index("k")}, nil
 	}).AddIndex(badgerstore.Index{Name: "k", Key: func(v interface{}) []byte { return []byte(v.(val).K) }})
+	sharedQ = &badgerstore.IndexQuery{Index: qs.Index("k"), Limit: -1}
 	calls := 0 // plain memory: only the consumer goroutine touches it
 	qs.OnQueryChange(func(store.QueryChange) { calls++ })
 	badgerstore.VerifPointFn = func(p, id string) {
@@ -530,6 +536,23 @@ func raceIndexQueue(writers int) string {
 	qs.Flush()
 	if calls != per*writers {
 		return "done-lost-callbacks"
+	}
+	var short int32
+	for g := 0; g < 4; g++ {
+		wg.Add(1)
+		go func() {
+			defer wg.Done()
+			for i := 0; i < 5; i++ {
+				v, err := qs.Query(url.Values{"shared": {"1"}})
+				if ids, _ := v.([]string); err != nil || len(ids) != per*writers {
+					atomic.StoreInt32(&short, 1)
+				}
+			}
+		}()
+	}
+	wg.Wait()
+	if short != 0 {
+		return "done-short-query"
 	}
 	return "done"
 }
